@@ -60,6 +60,8 @@ class World:
         self.n = n
         self.G = {i: 0 for i in range(n)}          # ghost generations
         self.prepares = []                          # (resource, what it saw)
+        self.offered = {}                           # resource -> tag of the spec offered last
+        self.spec_problems = []
         self.clock = FakeTime()
         self._saved = (cache.time, registry.time)
         cache.time = self.clock
@@ -73,16 +75,27 @@ class World:
 
     async def preparer(self, cache_key, spec):
         i = int(cache_key[1:])
+        # a preparer may consume its spec (real prepare_* functions pop keys); the cache must hand every
+        # (re)preparation the spec as it was offered, so this one scribbles on what it is given
+        if "__scribble__" in spec or spec.get("deps") is None or spec.get("tag") != self.offered.get(i):
+            self.spec_problems.append(
+                f"preparation of r{i} was handed a spec that is not the offered one: {spec!r}")
         deps = list(spec["deps"])
+        spec["__scribble__"] = True
+        spec["deps"] = None
         seen = {d: self.G[d] for d in deps}
         self.G[i] += 1
         self.prepares.append((i, dict(seen)))
         return (Prepared(cache_key, seen), [self.res(d) for d in deps])
 
     async def offer(self, i, v, deps):
+        sd = self.cache.get_resource_system_data_from_cache(Res, rname(i))
+        tag = f"r{i}@v{v}:{sorted(deps)}"
+        if sd is None or sd.resource_version != f"v{v}":
+            self.offered[i] = tag            # a same-version offer is a cache hit: the earlier spec stays
         return await self.cache.prepare_and_cache(
             resource_class=Res, preparer=self.preparer,
-            metadata={"name": rname(i), "resourceVersion": f"v{v}"}, spec={"deps": list(deps)})
+            metadata={"name": rname(i), "resourceVersion": f"v{v}"}, spec={"deps": list(deps), "tag": tag})
 
     async def delete(self, i, ver):
         before = self.cache.get_resource_system_data_from_cache(Res, rname(i))
@@ -100,7 +113,7 @@ class World:
             else:
                 version = int(sd.resource_version[1:])
                 r = sd.resource
-                seen = [[d, r.seen.get(d)] for d in sd.spec["deps"]] if isinstance(r, Prepared) else "bad"
+                seen = [[d, r.seen.get(d)] for d in (sd.spec.get("deps") or [])] if isinstance(r, Prepared) else "bad"
             subs = sorted(int(x.name[1:]) for x in self.registry.get_subscriptions(self.res(i)))
             out.append({"version": version, "seen": seen, "subs": subs, "gen": self.G[i]})
         return out
@@ -113,7 +126,7 @@ class World:
             sd = self.cache.get_resource_system_data_from_cache(Res, rname(i))
             if sd is None:
                 continue
-            for d in sd.spec["deps"]:
+            for d in (sd.spec.get("deps") or []):
                 if sd.resource.seen.get(d) != self.G[d]:
                     bad.append((i, d, sd.resource.seen.get(d), self.G[d]))
         return bad
@@ -136,7 +149,7 @@ class World:
                 if t is not None and not t.done():
                     probs.append(f"deleted r{i} still has a live monitor")
             else:
-                deps = sorted(sd.spec["deps"])
+                deps = sorted((sd.spec.get("deps") or []))
                 if subs != deps:
                     probs.append(f"cached r{i} declared {deps} but is subscribed to {subs}")
                 if deps:
@@ -185,11 +198,12 @@ def run_history(n, history, probe=True):
         for b in world.incoherent():
             findings.append(f"idle but r{b[0]} was built from generation {b[2]} of r{b[1]} (current {b[3]})")
         findings.extend(world.watcher_problems())
+        findings.extend(world.spec_problems[:1])
         if probe and not findings:
             # change every resource once more, one at a time, and look again
             for d in range(n):
                 sd = world.cache.get_resource_system_data_from_cache(Res, rname(d))
-                deps = list(sd.spec["deps"]) if sd else []
+                deps = list((sd.spec.get("deps") or [])) if sd else []
                 await world.offer(d, nextv, deps)
                 nextv += 1
                 if not await settle(loop, world):
